@@ -1,6 +1,269 @@
-//! C31 — not built yet.
-use vcommon::Args;
+//! C31 — a proxy's property cache reflects the received history.
+//!
+//! A real connection + `zbus::Proxy` (caching on, one uncached property) faces a scripted peer.
+//! The peer's emissions (the GetAll reply, PropertiesChanged for the proxy's interface, an
+//! invalidation, a change on another interface, a change of the uncached property) are
+//! environment events; every order of them and of the task polls is explored by DFS with a
+//! deviation bound, for every subset of the update events.
 
-pub fn main(_args: &Args) -> i32 {
-    vcommon::machinery_failure("C31: check not built yet")
+use std::{collections::HashMap, sync::{Arc, Mutex}};
+
+use futures_lite::StreamExt;
+use serde_json::json;
+use vcommon::{Args, Report};
+use zbus::{
+    connection::Builder,
+    proxy::CacheProperties,
+    zvariant::Value,
+    Message,
+};
+
+use crate::{
+    explore::ExecResult,
+    sched::{finish_model_checking, run_scenario, v, SchedPlan, Totals},
+    world::{parse_message, split_messages, Link, SockCfg, Step, World, GUID},
+};
+
+#[derive(Clone, Copy, Debug, PartialEq)]
+enum Ev {
+    GetAllReply,
+    Set1,
+    Set2,
+    Invalidate,
+    OtherIface,
+    Uncached,
+    /// one signal carrying both a change and an invalidation of another cached property
+    SetQInvalidateP,
+}
+
+const UPDATES: [Ev; 6] = [Ev::Set1, Ev::Set2, Ev::Invalidate, Ev::OtherIface, Ev::Uncached, Ev::SetQInvalidateP];
+
+fn changed_signal(iface: &str, changed: Vec<(&str, Value<'_>)>, invalidated: Vec<&str>) -> Message {
+    let map: HashMap<&str, Value<'_>> = changed.into_iter().collect();
+    Message::signal("/o", "org.freedesktop.DBus.Properties", "PropertiesChanged")
+        .unwrap()
+        .sender(":1.5")
+        .unwrap()
+        .build(&(iface, map, invalidated))
+        .unwrap()
+}
+
+#[derive(Debug, Clone, PartialEq)]
+struct ModelState {
+    ready: bool,
+    p: Option<u32>,
+    q: Option<String>,
+}
+
+fn scenario(updates: &[Ev]) -> ExecResult {
+    let mut w = World::new();
+    w.horizon = 400;
+    let link = Link::new();
+    let sock = link.end_a(SockCfg::default());
+    let conn = w
+        .complete("build", async move {
+            Builder::authenticated_socket(sock, GUID)
+                .unwrap()
+                .p2p()
+                .internal_executor(false)
+                .build()
+                .await
+                .unwrap()
+        })
+        .expect("build");
+    let seen: Arc<Mutex<Vec<Option<u32>>>> = Default::default();
+    let proxy_slot: Arc<Mutex<Option<zbus::Proxy<'static>>>> = Default::default();
+    let (c2, s2, ps2) = (conn.clone(), seen.clone(), proxy_slot.clone());
+    let root = w.spawn("proxy-user", async move {
+        let proxy: zbus::Proxy<'static> = zbus::proxy::Builder::new(&c2)
+            .destination(":1.5")?
+            .path("/o")?
+            .interface("a.b.I")?
+            .cache_properties(CacheProperties::Yes)
+            .uncached_properties(&["U"])
+            .build()
+            .await?;
+        *ps2.lock().unwrap() = Some(proxy.clone());
+        let mut stream = proxy.receive_property_changed::<u32>("P").await;
+        while let Some(_changed) = stream.next().await {
+            let cur = proxy.cached_property::<u32>("P").ok().flatten();
+            s2.lock().unwrap().push(cur);
+        }
+        Ok::<(), zbus::Error>(())
+    });
+    let mut remaining: Vec<Ev> = updates.to_vec();
+    let mut getall_serial: Option<u32> = None;
+    let mut getall_replied = false;
+    let mut model = ModelState { ready: false, p: None, q: None };
+    let mut order: Vec<Ev> = vec![];
+    loop {
+        if getall_serial.is_none() {
+            let out = link.a2b.written();
+            let (msgs, _) = split_messages(&out);
+            for r in msgs {
+                if let Ok(m) = parse_message(&out[r]) {
+                    if m.header().member().map(|m| m.as_str() == "GetAll").unwrap_or(false) {
+                        getall_serial = Some(m.primary_header().serial_num().get());
+                    }
+                }
+            }
+        }
+        let mut menu: Vec<Ev> = vec![];
+        if getall_serial.is_some() && !getall_replied {
+            menu.push(Ev::GetAllReply);
+        }
+        menu.extend(remaining.iter().cloned());
+        match w.step(menu.len()) {
+            Step::Ran(_) => {}
+            Step::Env(k) => {
+                let e = menu[k];
+                order.push(e);
+                let msg = match e {
+                    Ev::GetAllReply => {
+                        getall_replied = true;
+                        // reply to the GetAll call
+                        let call = Message::method_call("/o", "GetAll").unwrap().build(&()).unwrap();
+                        let mut bytes = call.data().bytes().to_vec();
+                        bytes[8..12].copy_from_slice(&getall_serial.unwrap().to_le_bytes());
+                        let call = parse_message(&bytes).unwrap();
+                        let mut map: HashMap<&str, Value<'_>> = HashMap::new();
+                        map.insert("P", Value::from(100u32));
+                        map.insert("U", Value::from(5u32));
+                        map.insert("Q", Value::from("q0"));
+                        model.ready = true;
+                        model.p = Some(100);
+                        model.q = Some("q0".into());
+                        Message::method_return(&call.header()).unwrap().sender(":1.5").unwrap().build(&(map,)).unwrap()
+                    }
+                    Ev::Set1 => {
+                        if model.ready {
+                            model.p = Some(1);
+                        }
+                        changed_signal("a.b.I", vec![("P", Value::from(1u32))], vec![])
+                    }
+                    Ev::Set2 => {
+                        if model.ready {
+                            model.p = Some(2);
+                        }
+                        changed_signal("a.b.I", vec![("P", Value::from(2u32))], vec![])
+                    }
+                    Ev::Invalidate => {
+                        if model.ready {
+                            model.p = None;
+                        }
+                        changed_signal("a.b.I", vec![], vec!["P"])
+                    }
+                    Ev::OtherIface => changed_signal("c.d.Other", vec![("P", Value::from(9u32))], vec!["P"]),
+                    Ev::Uncached => changed_signal("a.b.I", vec![("U", Value::from(7u32))], vec![]),
+                    Ev::SetQInvalidateP => {
+                        if model.ready {
+                            model.q = Some("q1".into());
+                            model.p = None;
+                        }
+                        changed_signal("a.b.I", vec![("Q", Value::from("q1"))], vec!["P"])
+                    }
+                };
+                if e != Ev::GetAllReply {
+                    remaining.retain(|x| *x != e);
+                }
+                link.b2a.push(msg.data().bytes(), vec![]);
+            }
+            _ => break,
+        }
+    }
+    let mut res = ExecResult {
+        capped: w.hit_horizon,
+        steps: w.steps,
+        ..Default::default()
+    };
+    w.obs(format!("receive order {order:?}"));
+    let proxy = proxy_slot.lock().unwrap().clone();
+    if !w.hit_horizon && getall_replied {
+        match &proxy {
+            None => {
+                let r = root.take();
+                res.violations.push(
+                    v("cache-ready", format!("the GetAll reply was delivered but the proxy never became ready (builder result {:?}); order {order:?}; trace={:?}", r.map(|r| r.map_err(|e| e.to_string())), w.trace))
+                        .feat("kind", "never-ready"),
+                );
+            }
+            Some(proxy) => {
+                let p = proxy.cached_property::<u32>("P").ok().flatten();
+                let q = proxy.cached_property::<String>("Q").ok().flatten();
+                let u = proxy.cached_property::<u32>("U").ok().flatten();
+                w.obs(format!("cached P={p:?} Q={q:?} U={u:?}; model {model:?}"));
+                if p != model.p {
+                    res.violations.push(
+                        v("cached-value-equals-history", format!("receive order {order:?}: cached P = {p:?}, the received history implies {:?}", model.p))
+                            .feat("kind", "P"),
+                    );
+                }
+                if q != model.q {
+                    res.violations.push(
+                        v("cached-value-equals-history", format!("receive order {order:?}: cached Q = {q:?}, the received history implies {:?}", model.q))
+                            .feat("kind", "Q"),
+                    );
+                }
+                if u.is_some() {
+                    res.violations.push(
+                        v("uncached-never-cached", format!("receive order {order:?}: property U is marked uncached but the cache holds {u:?}"))
+                            .feat("kind", "U"),
+                    );
+                }
+                let s = seen.lock().unwrap().clone();
+                w.obs(format!("property stream saw {s:?}"));
+                if let Some(last) = s.last() {
+                    if *last != model.p {
+                        res.violations.push(
+                            v("stream-reports-latest", format!("receive order {order:?}: the property stream's last report was {last:?} but the latest value is {:?} (all reports {s:?})", model.p))
+                                .feat("kind", "stream"),
+                        );
+                    }
+                } else if model.p.is_some() {
+                    res.violations.push(
+                        v("stream-reports-latest", format!("receive order {order:?}: the property stream never reported although P = {:?}", model.p))
+                            .feat("kind", "stream-silent"),
+                    );
+                }
+            }
+        }
+    }
+    res.log = std::mem::take(&mut w.log);
+    drop(proxy);
+    drop(conn);
+    res
+}
+
+pub fn main(args: &Args) -> i32 {
+    let report = Report::new("C31", args.tier, args.seed, "model_checking");
+    let totals = Mutex::new(Totals::default());
+    let quick = args.tier == vcommon::Tier::Quick;
+    let max_size = args.tier.pick(3, 4);
+    for mask in vcommon::enumerate::subsets(UPDATES.len()) {
+        if mask.count_ones() as usize > max_size {
+            continue;
+        }
+        let updates: Vec<Ev> = UPDATES.iter().enumerate().filter(|(i, _)| mask & (1 << i) != 0).map(|(_, e)| *e).collect();
+        let name = format!("updates-{updates:?}");
+        let plan = SchedPlan {
+            // fixed bounds (not time-driven) so that the quick tier covers the same space on every run
+            bounds: match (quick, updates.len()) {
+                (true, 0..=2) => vec![Some(3)],
+                (true, _) => vec![Some(2)],
+                (false, 0..=2) => vec![None],
+                (false, 3) => vec![Some(4)],
+                (false, _) => vec![Some(3)],
+            },
+            max_execs: args.tier.pick(2_000_000, 50_000_000),
+            time_budget_s: args.tier.pick(120.0, 900.0),
+        };
+        let u2 = updates.clone();
+        run_scenario(&report, &totals, &name, json!({"updates": format!("{updates:?}")}), &plan, move || scenario(&u2));
+    }
+    report.assume("the peer answers GetAll only after it has completely received the call; receive order = the order in which the peer's messages are pushed to the socket");
+    finish_model_checking(
+        &report,
+        &totals,
+        "every subset (≤ size bound) of the update events × every order of {GetAll reply, updates} × task polls, up to the completed deviation bound",
+    )
 }
